@@ -51,6 +51,7 @@ def body(ck):
     ck.assumptions = ["jr.choice(replace=False, p) returns distinct indices of non-zero probability (interface assumed by the sampling theorem; checked on every generated batch)"]
     ck.not_proved = ["uniformity of sampling (PRNG)"]
     ck.build_coq(); ck.compile_props()
+    ck.kernel_link()   # ReplayBuffer.add / current_size regenerated from the source = Replay.soa_add (coq/link/C06_link.v)
     quick = ck.tier == "quick"
     rng = ck.rng
     n_cases = 45 if quick else 500
